@@ -785,6 +785,8 @@ class Exec:
                 continue
             seen.append(c)
             ci = self.classes[c]
+            if name not in ci.members and name.startswith(f'_{c.lstrip("_")}__') and name[len(c.lstrip('_')) + 1:] in ci.members:
+                name = name[len(c.lstrip('_')) + 1:]          # a private member (def __helper) looked up under its mangled name _Class__helper
             if name in ci.members:
                 n = ci.members[name]
                 if isinstance(n, ast.FunctionDef):
